@@ -123,9 +123,47 @@ fn forged_product_devs(xor: bool, p: usize, h: &Honest) -> Vec<Dev> {
     devs
 }
 
+fn gadget_same(xor: bool, p: usize, x: Fe) -> Gadget {
+    Gadget::new(&format!("logic/{}/same-witness/p{}", if xor { "xor" } else { "and" }, p), vec![x], move |c, ins| {
+        let o = if xor { dispatch::logic_xor(c, ins[0], ins[0], p) } else { dispatch::logic_and(c, ins[0], ins[0], p) };
+        Ok(vec![o])
+    })
+}
+
+/// Both operands are the SAME witness: the adversary fills the loop (right
+/// accumulators, products, outputs) with the values of an unrelated operand y.
+fn foreign_operand_devs(xor: bool, p: usize, x: Fe, h: &Honest) -> Vec<Dev> {
+    let mut devs = vec![];
+    if p == 0 {
+        return devs;
+    }
+    for y in [x + one(), zero(), neg1()] {
+        if m5::low_bits(&y, 2 * p) == m5::low_bits(&x, 2 * p) {
+            continue;
+        }
+        let Ok(h2) = e2::honest(&gadget(xor, p, x, y)) else { continue };
+        let script: Vec<(usize, Fe)> = (0..4 * p).map(|i| (h.meta.lo + i, h2.snap.witnesses[h2.meta.lo + i])).collect();
+        devs.push(Dev { script, tag: format!("foreign-right-operand({})", hex(&y)), must_confirm: true });
+    }
+    devs
+}
+
 pub fn cases(tier: Tier) -> Vec<GCase> {
     let seed = seed();
     let mut out = vec![];
+    // aliased operands: op(x, x)
+    for p in pair_counts(tier) {
+        for x in [fe(0xb5), neg1(), Rho::new(seed, 1399 + p as u64).next_fe()] {
+            for xor in [false, true] {
+                let spec = m5::logic(&x, &x, 2 * p, xor);
+                let mut c = GCase::new(gadget_same(xor, p, x), Expect::Sat(vec![spec]), &format!("logic/{}/same-witness", if xor { "xor" } else { "and" }));
+                c.named = Some(Arc::new(move |h: &Honest| foreign_operand_devs(xor, p, x, h)));
+                c.dev_stride = if p <= 3 { 1 } else { 0 };
+                c.confirm = p <= 3 || p == 127;
+                out.push(c);
+            }
+        }
+    }
     for p in pair_counts(tier) {
         for (a, b) in input_pairs(p, seed, tier == Tier::Thorough) {
             for xor in [false, true] {
